@@ -71,6 +71,27 @@ def rnd_seq(rng, depth):
     return "".join(out)
 
 
+def star_height(pat):
+    """nesting depth of unbounded repetitions (CPython's backtracking matcher is exponential on height >= 2)"""
+    import re._parser as sp                     # noqa: E402
+    import re._constants as sc
+
+    def h(items):
+        best = 0
+        for op, av in items:
+            if op in (sc.MAX_REPEAT, sc.MIN_REPEAT):
+                inner = h(av[2])
+                best = max(best, inner + (1 if av[1] == sc.MAXREPEAT else 0))
+            elif op == sc.SUBPATTERN:
+                best = max(best, h(av[3]))
+            elif op == sc.BRANCH:
+                best = max([best] + [h(b) for b in av[1]])
+            elif op in (sc.ASSERT, sc.ASSERT_NOT):
+                best = max(best, h(av[1]))
+        return best
+    return h(sp.parse(pat))
+
+
 def rnd_text(rng):
     n = rng.randint(0, 40)
     return "".join(rng.choice(ALPH) for _ in range(n))
@@ -233,6 +254,8 @@ def run(tier, seed, replay=None):
         try:
             term, ng = re2coq.translate(pat, 0, need_nonempty=True)
             text = rnd_text(rng)
+            if star_height(pat) >= 2:
+                text = text[:12]        # nested unbounded repetitions: keep the subject short (exponential backtracking)
             s, allm, subbed, ng2 = py_spans(pat, text)
         except (re2coq.Unsupported, re.error):
             continue
